@@ -30,7 +30,7 @@ func patSeed(sl int) func(in *Interp, st *State, ps []Val) {
 
 func runC07(c *Checker) {
 	c.Level = "other"
-	c.explain = "The PAT accessors are interpreted on a symbolic payload with pointer_field 0 and each section_length 9+4N (+0..3) for N = 0..6: NumPrograms must be the constant N; ProgramMap must perform exactly N map updates whose key is p[9+4i]‖p[10+4i], whose value is p[11+4i][4:0]‖p[12+4i], each guarded by program_number > 0 only; SPTSpmtPID must fail for N > 1, return the single stored PID for N = 1 with a program entry and fail otherwise. NewPAT is interpreted for lengths around its thresholds, IsPMT for maps of 0..3 entries, ReadPAT by SSA path rules. Decides: count formula, entry layout, guard, carriers' plumbing. Does not decide: the map contents for concrete tables, PATs with pointer_field ≠ 0."
+	c.explain = "The PAT accessors are interpreted on a symbolic payload with pointer_field 0 and each section_length 9+4N (+0..3) for N = 0..6: NumPrograms must be the constant N; ProgramMap must perform exactly N map updates whose key is p[9+4i]‖p[10+4i], whose value is p[11+4i][4:0]‖p[12+4i], each guarded by program_number > 0 only; SPTSpmtPID must fail for N > 1, return the single stored PID for N = 1 with a program entry and fail otherwise. NewPAT is interpreted for lengths around its thresholds, IsPMT for maps of 0..3 entries, ReadPAT by one abstract iteration of its loop (read replaced by a model with seeded PID bits: all zero, or bit k one for each k) with a case analysis on the read result. Decides: count formula, entry layout, guard, carriers' plumbing. Does not decide: the map contents for concrete tables, PATs with pointer_field ≠ 0."
 	c.trust("go/ssa + go/types (x/tools v0.29.0)", "E1 transfer functions incl. map-update logging", "layout transcribed from ISO/IEC 13818-1 Table 2-30")
 	maxN := 6
 	// ---- NumPrograms
